@@ -56,6 +56,8 @@ impl DnsDiscoveryAdapter {
         // create DNS resolver
         let resolver =
             TokioAsyncResolver::tokio(ResolverConfig::default(), ResolverOpts::default());
+        #[cfg(passage_verif)]
+        let resolver = verif_resolver().unwrap_or(resolver);
 
         // start background refresh task
         let _inner = Arc::clone(&inner);
@@ -173,4 +175,16 @@ impl DiscoveryAdapter for DnsDiscoveryAdapter {
     async fn discover(&self) -> passage_adapters::Result<Vec<Target>> {
         Ok(self.inner.read().await.clone())
     }
+}
+
+/// Verification hook (only with `--cfg passage_verif`): lets a test harness answer the adapter's DNS questions from a
+/// loopback server named in `PASSAGE_VERIF_DNS_SERVER` (e.g. `127.0.0.1:5353`, UDP). Only the name-server list of the
+/// resolver configuration is replaced; the resolver options and everything the adapter does with the answers stay as they are.
+#[cfg(passage_verif)]
+fn verif_resolver() -> Option<TokioAsyncResolver> {
+    use hickory_resolver::config::{NameServerConfig, Protocol};
+    let server: SocketAddr = std::env::var("PASSAGE_VERIF_DNS_SERVER").ok()?.parse().ok()?;
+    let mut config = ResolverConfig::new();
+    config.add_name_server(NameServerConfig::new(server, Protocol::Udp));
+    Some(TokioAsyncResolver::tokio(config, ResolverOpts::default()))
 }
